@@ -66,7 +66,7 @@ def slicetiming(ck):
         if k not in reg:
             ck.fail("slicetiming/registry-missing", "schedule name %r is not registered" % k,
                     {"name": k})
-    nmax = ck.n(48, 200)
+    nmax = ck.n(128, 256)
     TRs = [1.0, 2.0, 2.5] if not ck.thorough() else [1.0, 2.0, 2.5, 0.72, 3.0]
     terms = []
     meta = []
